@@ -9,6 +9,7 @@ hit / hold / sample lines contain integers only and are proved down to the chara
 -/
 import Reamber.Lemmas.OsuHeader
 import Reamber.Lemmas.OsuDenote
+import Reamber.Lemmas.OsuDialect
 import Reamber.Generated.OsuTables
 
 namespace Reamber.Osu
@@ -488,5 +489,39 @@ def nlChart : Chart := { md := { stackLeniency := 1, timelineZoom := 2, sliderMu
 theorem uni_newline_counterexample :
     (readText (writeText nlRender nlChart)).toOption.map (·.md.title) = some ['a'] ∧
     (quantize nlRender.uni nlChart).md.title = ['a', '\n', 'b'] := by decide +kernel
+
+/-! ## text → chart → text: the other direction -/
+
+/-- **Whole file, text → chart** (restated from `Lemmas/OsuDialect.lean`): on every text whose trimmed lines form a
+well-formed `Skeleton` (the formalised `dialect_ok`), `OsuMap.read` returns the chart `c` iff the by-the-book denotation
+does (key count ≥ 1). -/
+theorem read_text_iff_denote (s : Skeleton) (hwf : s.WF) (lines0 : List Str) (hl : lines0.map strip = s.lines)
+    (c : Chart) (hk : 1 ≤ pyTrunc c.md.circleSize) : read lines0 = .ok c ↔ denote lines0 = .ok c :=
+  read_iff_denote s hwf lines0 hl c hk
+
+/-- `denote (write (read t)) = quantize (denote t)` — PARTIAL.
+Full statement: for every dialect text `t` with `denote t = .ok c` (key count ≥ 1):
+`read t = .ok c` and `denoteText (writeText R c) = .ok (quantize R.uni c)`.
+Proved here under two extra hypotheses that the full statement would derive:
+(a) the write-side hypotheses of `read_writeText` on `c` (columns inside the key count, separator-free file names,
+    non-zero bpm / SV, integral int-read attributes, renderer read-back) — true of every chart read from a dialect text,
+    not derived here;
+(b) the written text is itself a dialect skeleton (`s'`, `hwf'`, `hl'`) — true by construction of `write`
+    (given a background name without `"` `,`), not derived here.
+Everything else — both whole-file theorems, the value-level line theorems, the section theorems — is proved. -/
+theorem denote_write_read_partial (s : Skeleton) (hwf : s.WF) (lines0 : List Str) (hl : lines0.map strip = s.lines)
+    (c : Chart) (hden : denote lines0 = .ok c) (R : Render)
+    (hk : 0 < pyTrunc c.md.circleSize) (hk' : pyTrunc c.md.circleSize ≤ 256)
+    (hhits : ∀ h ∈ c.hits, ObjOk2 (pyTrunc c.md.circleSize) (.hit h))
+    (hholds : ∀ h ∈ c.holds, ObjOk2 (pyTrunc c.md.circleSize) (.hold h))
+    (hb : ∀ b ∈ c.bpms, BpmOk2 R b) (hs : ∀ b ∈ c.svs, SvOk2 R b)
+    (hm : MetaOk R c.md) (hnl : ∀ tl ∈ writeMeta c.md, ∀ t ∈ tl, '\n' ∉ R.tok t)
+    (s' : Skeleton) (hwf' : s'.WF) (hl' : (splitOn '\n' (writeText R c)).map strip = s'.lines) :
+    read lines0 = .ok c ∧ denoteText (writeText R c) = .ok (quantize R.uni c) := by
+  refine ⟨read_eq_denote s hwf lines0 hl c hden (by omega), ?_⟩
+  have hrw := read_writeText R c hk hk' hhits hholds hb hs hm hnl
+  unfold readText at hrw
+  unfold denoteText
+  exact denote_eq_read s' hwf' _ hl' _ hrw (by show 1 ≤ pyTrunc c.md.circleSize; omega)
 
 end Reamber.Osu
